@@ -357,7 +357,15 @@ func (ex *Explorer) recordCE(id string, model map[string]string, note string) {
 	ex.hr.mu.Lock()
 	o := ex.hr.obl(id)
 	o.Violated++
-	if len(o.CEs) < ex.maxCEs {
+	// cap per (obligation, known-finding class) so that known counterexamples never crowd out
+	// one that lies outside every listed class
+	same := 0
+	for _, c := range o.CEs {
+		if c.Class == ce.Class {
+			same++
+		}
+	}
+	if same < ex.maxCEs {
 		o.CEs = append(o.CEs, ce)
 	}
 	ex.hr.mu.Unlock()
